@@ -1134,3 +1134,15 @@ Section Histories.
     destruct Ho as [<-|Ho]; [exists w1; exact E|apply IH; exact Ho].
   Qed.
 End Histories.
+
+(** * 11. The literals of the source the model was written against (translator item
+    c02EmitC02GateShape): the cache-miss gate is called with requireOnDemand = false, the two
+    renewal-side gates (storage-missing branch of handshakeMaintenance, renewAndReload) with true, and
+    no other function calls the gate; the almost-full factor is 9/10; the obtain call after a failed
+    load is guarded by !errors.Is(err, errMaintainingLoadedCert).  By computation: any change of these
+    in the source breaks this proof. *)
+Lemma source_shape :
+  hs_gate_require_args = [[false]; [true]; [true]] /\
+  (hs_almost_full_num = 9 /\ hs_almost_full_den = 10)%nat /\
+  hs_no_obtain_after_maintenance_error = true.
+Proof. repeat split. Qed.
